@@ -50,11 +50,13 @@ class ArgumentGenerator:
         convert_to_snake_case: bool,
         plugin_manager: Optional[PluginManager] = None,
         input_types_module_name: str = "input_types",
+        enums_module_name: str = "enums",
     ) -> None:
         self.custom_scalars = custom_scalars
         self.convert_to_snake_case = convert_to_snake_case
         self.plugin_manager = plugin_manager
         self.input_types_module_name = input_types_module_name
+        self.enums_module_name = enums_module_name
         self.imports: List[ast.ImportFrom] = []
         self._used_custom_scalars: List[str] = []
 
@@ -200,7 +202,11 @@ class ArgumentGenerator:
                 )
             )
         elif isinstance(type_, GraphQLEnumType):
-            self._add_import(generate_import_from(names=[name], level=1))
+            self._add_import(
+                generate_import_from(
+                    names=[name], from_=self.enums_module_name, level=1
+                )
+            )
         elif isinstance(type_, GraphQLScalarType):
             if name not in self.custom_scalars:
                 name = INPUT_SCALARS_MAP.get(name, ANY)
